@@ -36,6 +36,8 @@ def recon_tol(atol):
 
 
 class Verdicts(list):
+    inexact = False
+
     def add(self, monitor, mech, ok, msg=""):
         self.append((monitor, mech, bool(ok), msg() if (callable(msg) and not ok) else ("" if callable(msg) else msg)))
         return bool(ok)
@@ -114,8 +116,11 @@ def post_kak_vector(u, vec, atol=1e-8):
     v.add("kak_vector:weyl-z-sign", "C15:kak_vector:z-negative-at-x=pi/4", W.chamber_z_sign_ok(x, z, 0.5 * atol, 1e-12),
           "x = pi/4 (within atol) but z = %.6g < 0" % z)
     d = W.coordinates_match(u, (x, y, z))
-    v.add("kak_vector:local-invariant", "C15:kak_vector:wrong-equivalence-class", d <= TOL,
+    # kak_vector decides "x == pi/4" with np.isclose(rtol=1e-5): for x within 7.9e-6 of pi/4 it returns (x, y, |z|),
+    # which is off by up to 1.6e-5; hold it to 10 x (atol + rtol) like the other rtol/atol-parameterised helpers
+    v.add("kak_vector:local-invariant", "C15:kak_vector:wrong-equivalence-class", d <= 10 * (atol + 1e-5),
           "spectrum of Ub^T Ub differs from that of exp(i(xXX+yYY+zZZ)) by %.3g" % d)
+    v.inexact = d > TOL
     return v
 
 
